@@ -78,6 +78,7 @@ func NewIngressConverter(options *convtypes.ConverterOptions, haproxy haproxy.Co
 		hostAnnotations:    map[*hatypes.Host]*annotations.Mapper{},
 		backendAnnotations: map[*hatypes.Backend]*annotations.Mapper{},
 		ingressClasses:     map[string]*ingressClassConfig{},
+		trackedIngress:     map[string]*networking.Ingress{},
 	}
 	c.readDefaultCertificate()
 	return c
@@ -100,6 +101,7 @@ type converter struct {
 	hostAnnotations    map[*hatypes.Host]*annotations.Mapper
 	backendAnnotations map[*hatypes.Backend]*annotations.Mapper
 	ingressClasses     map[string]*ingressClassConfig
+	trackedIngress     map[string]*networking.Ingress
 }
 
 func (c *converter) ReadAnnotations(backend *hatypes.Backend, services []*api.Service, pathLinks []*hatypes.PathLink) {
@@ -278,6 +280,9 @@ func (c *converter) syncPartial() {
 	ingList := make([]*networking.Ingress, 0, len(ingMap))
 	for name, ing := range ingMap {
 		if ing == nil {
+			ing = c.trackedIngress[name]
+		}
+		if ing == nil {
 			var err error
 			ing, err = c.cache.GetIngress(name)
 			if err != nil {
@@ -340,9 +345,15 @@ func (c *converter) trackAddedIngress() {
 		name := evt.Namespace + "/" + evt.Name
 		// track what is going to be synchronized: the object of the
 		// event can be older than the one syncPartial reads from the cache
-		ing, err := c.cache.GetIngress(name)
-		if err != nil {
-			continue
+		ing, found := c.trackedIngress[name]
+		if !found {
+			var err error
+			if ing, err = c.cache.GetIngress(name); err != nil {
+				continue
+			}
+			// the same object is the one that is parsed later: the cache can
+			// move on in the meantime, and what is parsed is what was tracked
+			c.trackedIngress[name] = ing
 		}
 		if ing.Spec.DefaultBackend != nil {
 			backend := c.findBackend(ing.Namespace, ing.Spec.DefaultBackend)
